@@ -309,13 +309,18 @@ static void sparse_case(std::size_t n, std::size_t nb, const std::vector<std::pa
       }
     }
   out.sep("D");
-  for (std::size_t b = 0; b < nb; ++b)
+  for (std::size_t b = 0; b <= nb; ++b)   // the block after the last one included: it must be refused like any element of it
   {
     try
     {
       auto d = cm.DiagonalIndices(b);
       out.is(d);
       out.tok(";");
+      for (auto idx : d)
+        if (idx >= cm.AsVector().size())
+          out.tok("ORACLE_INDEX_OUT_OF_STORAGE:diagonal");
+      if (b >= nb && !d.empty())
+        out.tok("ORACLE_NONEXISTENT_BLOCK_NOT_REFUSED:diagonal");
     }
     catch (const std::system_error& e)
     {
